@@ -6,8 +6,8 @@
      C: the tree compiler's result compared with B (same / its own text)
      W: wf_report of the worklist model's result, one digit per clause
         (operands, jump entries, body starts, last instruction, metadata), 1 = holds *)
-let rec nat_of_int (i : int) : nat = if i <= 0 then O else S (nat_of_int (i - 1))
-let rec int_of_nat (n : nat) : int = match n with O -> 0 | S m -> 1 + int_of_nat m
+let nat_of_int (i : int) : nat = let rec go k acc = if k <= 0 then acc else go (k - 1) (S acc) in go i O
+let int_of_nat (n : nat) : int = let rec go n acc = match n with O -> acc | S m -> go m (acc + 1) in go n 0
 
 let tt_table : token_type array = Array.of_list all_token_type
 let instr_table : instruction array = Array.of_list all_instruction
@@ -39,7 +39,7 @@ let parse_instr (s : string) : instruction * operand =
   let rest = String.sub s !k (n - !k) in
   let o =
     if rest = "-" then ONone
-    else if rest = "d" then OData (nat_of_int 1000000)
+    else if rest = "d" then OData (nat_of_int 100000)
     else if rest.[0] = 'n' then ONum (nat_of_int (int_of_string (String.sub rest 1 (String.length rest - 1))))
     else if rest.[0] = 'x' then OExpr (nat_of_int (int_of_string (String.sub rest 1 (String.length rest - 1))))
     else failwith ("bad operand " ^ s) in
